@@ -34,21 +34,21 @@ TABLE = {
     'C10': ('trace validation with correct rounding accepted by postcondition',
             'FP.tla: RoundsTo(mode, C, r) decides correct rounding through exact bignum comparisons (sum, product, quotient a/b via cmp(a, d*b), sqrt via cmp(a, d*d)); FP.tla itself is validated against an independent exact-rational oracle on labelled correct/corrupted facts (MC_FPSelf). Conformance: special-value/binade/halfway lattice squared x 4 rounding modes x float/double x every width, + random patterns, all forms; each lane result judged by TLC.', '7 C10'),
     'C11': ('trace validation by postcondition + environment facts',
-            'ceil/floor/trunc/round/nearbyint/rint judged by integer-neighbourhood comparisons on exact dyadics under each of the four modes; every driver call records the rounding control / FTZ / DAZ before and after (env facts: an AVEL call must leave them unchanged).', '7 C11'),
+            'ceil/floor/trunc/round/nearbyint/rint judged by integer-neighbourhood comparisons on exact dyadics under each of the four modes; every driver call records the rounding control / FTZ / DAZ before and after (env facts: an AVEL call must leave them unchanged); the fenv family repeats every float operation with FTZ and/or DAZ set by the caller in all four modes, so a restore that drops those bits is seen.', '7 C11 and Part II'),
     'C12': ('trace validation by postcondition',
             'frexp/ldexp/scalbn/ilogb/logb/frac/fmax/fmin/fdim on exponent fields and exact dyadics (ldexp through RoundsTo with the exponent swept over the whole range incl. INT_MIN/INT_MAX).', '7 C12'),
     'C13': ('trace validation of lane facts',
             'Classification and quiet comparisons as pure field tests; platform FP_* constants are mapped to names by the driver; every lattice / random pattern judged by TLC.', '7 C13'),
     'C14': ('trace validation of object histories',
-            'Denom.tla / TraceDenom.tla: the specification keeps den[id] = divisor given at construction and judges every later div, / %, /= %=, value() against its own state with DivRel; all (n, d) at 8 bits, adversarial numerators per divisor above; a signal during construction or use is a rejected event.', '7 C14'),
+            'Denom.tla / TraceDenom.tla: the specification keeps den[id] = divisor given at construction and judges every later div, / %, /= %=, value() against its own state with DivRel; all (n, d) at 8 bits, adversarial numerators per divisor above; a signal during construction or use is a rejected event; copy construction and copy assignment are events too (den[id] := den[from]): every object is copied, and assigned over an older object that held another divisor, then both are used.', '7 C14 and Part II'),
     'C15': ('trace validation of object histories',
-            'Vector denominators built from per-lane divisors (a different divisor in every lane) and broadcast from a scalar denominator; per-lane DivRel; missing or inaccessible members are recorded as events the specification rejects.', '7 C15'),
+            'Vector denominators built from per-lane divisors (a different divisor in every lane) and broadcast from a scalar denominator; per-lane DivRel; missing or inaccessible members are recorded as events the specification rejects; copies and assignments of vector denominators as in C14.', '7 C15 and Part II'),
     'C16': ('model checking + trace validation of lane facts',
             'The scalar overloads are judged by the same lane semantics as the vector lanes (so scalar = lane follows through the specification), in every subset of the scalar feature macros (thorough) / a covering selection (quick); mixed-sign cmp_* model-checked against comparison of mathematical integers at 8 bits; literal-argument calls catch results that differ under constant folding.', '7 C16'),
     'C17': ('model checking + trace validation of lane facts',
             'convert<V0>, converting constructors, mask conversions (all observers), width-1 conversions between element sizes (= static_cast on bytes), bit_cast; 8/16-bit values exhaustively.', '7 C17'),
     'C18': ('model checking + trace validation of allocator histories',
-            'MC_Alloc: the three implementations over a nondeterministic system heap, all placements, adversarial user writes (vacuity guard: an offset word inside the user range is caught). Conformance: seeded allocate/fill/deallocate histories on 22 (T, A) instantiations in 8 builds (C++11..20, SSE, clang, UBSan), system allocator calls observed by link-time interposition, validated by TraceAlloc.tla (alignment, containment, disjointness, exact frees, intact fill patterns, no leak).', '7 C18'),
+            'MC_Alloc: the three implementations over a nondeterministic system heap, all placements, adversarial user writes (vacuity guard: an offset word inside the user range is caught). Conformance: seeded allocate/fill/deallocate histories on 22 (T, A) instantiations in 8 builds (C++11..20, SSE, clang, UBSan), system allocator calls observed by link-time interposition, validated by TraceAlloc.tla (alignment, containment, disjointness, exact frees, intact fill patterns, no leak); plus TLC -> code: the complete state graph of the abstract history machine Gen_Alloc.tla (6 sizes incl. 0, up to 3 live blocks) replayed as one mini-history per transition; plus one request above 4 GiB per instantiation.', '7 C18 and Part II II.1'),
     'C19': ('model checking + trace validation of compile/link probes',
             'Config.tla: documented implication closure, type table, alias widths (MC_Config: closure laws, monotonicity). "Replaying a configuration" = compiling it: probe TUs per macro set, explicitly named and with AVEL_AUTO_DETECT + matching flags, GCC/Clang, C++11..20; standalone header inclusion; API table (operation well-formed for width 1 => declared and linkable for every wider vector) from a detection + link probe; all observations judged by TLC.', '7 C19'),
     'C20': ('model checking + trace validation',
